@@ -58,13 +58,25 @@ func UtxoValidateOutsideValidityIntervalUtxo(
 	_ common.ProtocolParameters,
 ) error {
 	validityIntervalStart := tx.ValidityIntervalStart()
-	if validityIntervalStart == 0 || slot >= validityIntervalStart {
-		return nil
+	if validityIntervalStart != 0 && slot < validityIntervalStart {
+		return OutsideValidityIntervalUtxoError{
+			ValidityIntervalStart: validityIntervalStart,
+			InvalidHereafter:      tx.TTL(),
+			Slot:                  slot,
+		}
 	}
-	return OutsideValidityIntervalUtxoError{
-		ValidityIntervalStart: validityIntervalStart,
-		Slot:                  slot,
+	// From Allegra on the TTL field is the exclusive upper bound
+	// (invalid-hereafter) of the validity interval: the transaction is
+	// valid only in slots strictly before it
+	invalidHereafter := tx.TTL()
+	if invalidHereafter != 0 && slot >= invalidHereafter {
+		return OutsideValidityIntervalUtxoError{
+			ValidityIntervalStart: validityIntervalStart,
+			InvalidHereafter:      invalidHereafter,
+			Slot:                  slot,
+		}
 	}
+	return nil
 }
 
 func UtxoValidateInputSetEmptyUtxo(
